@@ -1,3 +1,22 @@
+import glob as _glob, json as _json, os as _os
+
+
+def _stale_corpus(ctx):
+    """A corpus witness names a program of the generated corpus (harness/hv_dfir/corpus/build.rs); when the
+    generator changes, the harness can only skip it (`stale-corpus-case`). A regression witness that
+    silently stops running is a broken tie: re-record the corpus file."""
+    stale = []
+    for st in _glob.glob(_os.path.join(ctx["work"], "p*_corpus_*", "stats.json")):
+        try:
+            n = _json.load(open(st)).get("hist", {}).get("stale-corpus-case", 0)
+        except Exception as ex:  # unreadable stats = cannot vouch for the witness
+            n = -1
+        if n:
+            stale.append(f"{_os.path.basename(_os.path.dirname(st))}:{n}")
+    return [("corpus witnesses still name compiled corpus programs", not stale,
+             "stale: " + ", ".join(stale) if stale else "all corpus cases ran", None)]
+
+
 SPEC = dict(
     id="C23",
     lean_project="HvDfir", props_module="HvDfir.Props.C23", driver="hvdrv_dfir",
@@ -10,7 +29,9 @@ SPEC = dict(
     level_text=("Partial. Theorems (every well-formed program, every state/input/depth): blocking_input_complete — what a node "
                 "emits in a tick is its operator semantics applied, per input port, to the concatenation of everything the port's "
                 "producers emitted in that tick, expanded through any number of union/tee/identity/map-id/inspect/chain levels "
-                "(the handoff/union/tee chains of the partitioned graph); instances for fold and for anti_join's negative side; "
+                "(the handoff/union/tee chains of the partitioned graph); blocking_input_complete_any_partition — the same for the "
+                "tick evaluated subgraph by subgraph (runSchedule) for every partition whose flattened order is well formed; "
+                "instances for fold and for anti_join's negative side; "
                 "no_retraction_within_tick (a node's outputs are written once per tick and not touched by the rest of the tick) and "
                 "no_retraction_across_ticks (a longer history only appends outputs). Tie: ~105 compiled dfir_syntax! pipelines of "
                 "depth 0-6 (identity, map id, tee+dropped branch, union+empty source, partition/union and tee/filter/union diamonds) "
@@ -22,5 +43,6 @@ SPEC = dict(
                 "conclusion of C18); the generated tick closure (subgraph order, handoff buffers, eager drains in write_fn) is tied "
                 "by execution, not by proof. Singleton references (#var) are not in the model."),
     trusted_base=["rustc + dfir_macro expansion of the corpus", "closure library / item encoding shared between build.rs and the Lean model"],
+    extra=_stale_corpus,
     assumptions=["programs are acyclic within a tick (cycles only through defer_tick)"],
 )
